@@ -66,6 +66,13 @@ Fixpoint is_prefix (a b : list (list Z)) : bool :=
   | _, [] => false
   end.
 Definition subset_faces (a b : list (list Z)) : bool := forallb (fun x => existsb (face_eqb x) b) a.
+(* the mesh container keeps an undirected edge that is declared more than once only once (its first declaration, order kept;
+   mouette fix 32e0758 - before it, every declaration was kept): a closed chain of 2 points declares (0,1) and (1,0) *)
+Fixpoint keep_first (l : list (list Z)) : list (list Z) :=
+  match l with
+  | [] => []
+  | x :: t => x :: filter (fun y => negb (face_eqb x y)) (keep_first t)
+  end.
 
 (* what the implementation returned: rejected?, #vertices, faces, edges, cells *)
 Definition obs : Type := (bool * Z * list (list Z) * list (list Z) * list (list Z))%type.
@@ -94,7 +101,7 @@ Definition check_index (c : icase) : bool :=
                && (if cyc then all2 cyc_eqb F fs
                    else match C with [] => faces_eqb F fs | _ => is_prefix F fs end)
                && (match F, C with
-                   | [], [] => faces_eqb (map sort2 E) es
+                   | [], [] => faces_eqb (keep_first (map sort2 E)) es || faces_eqb (map sort2 E) es
                    | _, _ => subset_faces (map sort2 E) es
                    end)
                && faces_eqb C cs
